@@ -7,6 +7,7 @@
 #             parameters need no entry
 #   ranges    {parameter or obj.attr: (lo, hi)}: hypotheses of the generated definition (needed where exactness of
 #             an operation depends on magnitudes, e.g. Decimal's 28 digits)
+#   fuel      Python int expression bounding the iterations of the function's `while` loop
 #   prefix_upto / from_var   sub-translation of the integer part of a function with a float part
 #   prop / theorem           the property the function is anchored in and its tie theorem
 _PTP = ("PTPTime", [("seconds", "int"), ("nanoseconds", "int")])
@@ -57,6 +58,9 @@ SRC = [
        prop="C07", theorem="src_crc32mpeg2"),
   dict(file="AcraNetwork/__init__.py", lean="Init", func="endianness_swap",
        prop="C17", theorem="src_endianness_swap"),
+  # a `while` loop: bounded by `fuel` iterations (Err.fuel beyond); the tie theorem shows the fuel suffices for a >= 0
+  dict(file="AcraNetwork/ptptime.py", lean="Ptptime", func="bcdTointConvert", params={"a": "int"}, fuel="a + 1",
+       prop="C15", theorem="src_bcdTointConvert"),
   dict(file="AcraNetwork/Golay.py", lean="Golay", func="Golay._init_Table",
        prop="C11", theorem="src_Golay_init_Table"),
   dict(file="AcraNetwork/Golay.py", lean="Golay", func="Golay._syndrome2",
